@@ -57,7 +57,8 @@ func (r Row) Accepted(rx map[string]*RegexVar) bool {
 			return true
 		}
 		if p.Kind == "regex" {
-			if rv := rx[p.Regex]; rv != nil && rv.Tree != nil && strings.HasPrefix(rv.LeadingLiteral(), "Accepted ") {
+			// only a pattern anchored at the start of the line identifies the message kind
+			if rv := rx[p.Regex]; rv != nil && rv.Tree != nil && rv.BeginAnchored() && strings.HasPrefix(rv.LeadingLiteral(), "Accepted ") {
 				return true
 			}
 		}
